@@ -440,4 +440,58 @@ class C15d(Obligation):
                   'a second iteration replays the memo without running the generator again')
 
 
-OBLIGATIONS = [C15a, C15a2, C15a3, C15b, C15c, C15d, C15e, C15f]
+from jedi.inference import imports as jimports  # noqa: E402
+
+
+class ValuesStub:
+    def __init__(self, reenter):
+        self._reenter = reenter
+
+    def __bool__(self):
+        return True
+
+    def py__getattribute__(self, name, name_context=None, analysis_errors=True):
+        return self._reenter()
+
+
+class C15g(Obligation):
+    id = 'C15.g'
+    title = 'import cycles: inferring "from a import x" while it is already being inferred yields nothing instead of recursing'
+    pattern = 'P2 (re-entrancy through the attribute lookup of the imported module is a stub)'
+    assumptions = ('the attribute lookup on the imported module re-enters infer_import for the same statement (a name-level '
+                   'import cycle of symbolic length 1..3 statements); module loading is a stub',)
+
+    def scenario(self, ctx, cfg):
+        n = 1 + ctx.choice('cycle_length', 3)
+        ctx.int('unused')
+        state = Obj(memoize_cache={})
+        contexts = [Obj(tag='module%d' % i, inference_state=state, get_root_context=lambda: 'ROOT') for i in range(n)]
+        for c in contexts:
+            c.__class__ = HashObj
+        names = [Obj(tag='import-name-%d' % i) for i in range(n)]
+        depth = []
+
+        def prepare(module_context, tree_name):
+            i = names.index(tree_name)
+            depth.append(i)
+            if len(depth) > 40:
+                raise RecursionError('unbounded import recursion')
+            nxt = (i + 1) % n
+            return ('x', ('a',), 0, ValuesStub(lambda: jimports.infer_import(contexts[nxt], names[nxt])))
+        ctx.patch(jimports, '_prepare_infer_import', prepare)
+        ctx.patch(jimports, 'Importer', lambda state, path, module_context, level=0: Obj(follow=lambda: []))
+        ctx.force(jimports.infer_import)
+        out = ctx.call(jimports.infer_import, contexts[0], names[0])
+        ctx.check(out.exc is None, 'a name-level import cycle terminates (no RecursionError)')
+        ctx.check(len(depth) <= n, 'each import statement of the cycle is entered at most once')
+
+
+class HashObj(Obj):
+    def __hash__(self):
+        return id(self)
+
+    def __eq__(self, other):
+        return self is other
+
+
+OBLIGATIONS = [C15a, C15a2, C15a3, C15b, C15c, C15d, C15e, C15f, C15g]
